@@ -18,14 +18,18 @@ func (self *Parser) importIdent() (ast.SpannedIdent, *errors.Error) {
 
 	if self.CurrentToken.Kind == lexer.AtSymbol {
 		segments = append(segments, lexer.AtSymbol.String())
-		self.next()
+		if err := self.next(); err != nil {
+			return ast.SpannedIdent{}, err
+		}
 	}
 
 	if self.CurrentToken.Kind != lexer.Identifier {
 		return ast.SpannedIdent{}, self.expectedOneOfErr([]lexer.TokenKind{lexer.AtSymbol, lexer.Identifier})
 	}
 
-	self.next()
+	if err := self.next(); err != nil {
+		return ast.SpannedIdent{}, err
+	}
 
 	segments = append(segments, self.PreviousToken.Value)
 
@@ -34,10 +38,14 @@ loop:
 		switch self.CurrentToken.Kind {
 		case lexer.Colon:
 			segments = append(segments, self.CurrentToken.Kind.String())
-			self.next()
+			if err := self.next(); err != nil {
+				return ast.SpannedIdent{}, err
+			}
 			fallthrough
 		case lexer.Identifier:
-			self.expect(lexer.Identifier)
+			if err := self.expect(lexer.Identifier); err != nil {
+				return ast.SpannedIdent{}, err
+			}
 			segments = append(segments, self.PreviousToken.Value)
 		default:
 			break loop
